@@ -12,6 +12,7 @@ from __future__ import annotations
 
 import os
 import tempfile
+import warnings
 
 import numpy as np
 import z3
@@ -84,7 +85,7 @@ def tasks(tier, seed):
     out = [{"fn": "ctx", "kwargs": {"draws": d}, "label": f"ctx/draws={d}"} for d in (0, 1, 2)]
     for i, m in enumerate(MODELS):
         out.append({"fn": "model", "kwargs": {"i": i}, "label": f"model/{m[0]}"})
-    for mode in ("exposure", "observation_seq", "observation_dask_fn", "fitness", "apply_parameters", "calibration"):
+    for mode in ("exposure", "exposure_deprecated", "observation_seq", "observation_dask_fn", "fitness", "apply_parameters", "calibration"):
         out.append({"fn": "plumb", "kwargs": {"mode": mode}, "label": f"plumb/{mode}"})
     return out
 
@@ -231,6 +232,13 @@ def plumb(mode):
             if mode == "exposure":
                 pyxel.run_mode(mode=Exposure(readout=Readout(times=[1.0, 2.0]), pipeline_seed=s), detector=det, pipeline=pipe)
                 runs = 1
+            elif mode == "exposure_deprecated":
+                from pyxel.exposure.exposure import _run_exposure_pipeline_deprecated
+
+                with warnings.catch_warnings():
+                    warnings.simplefilter("ignore")
+                    _run_exposure_pipeline_deprecated(processor=Processor(detector=det, pipeline=pipe), readout=Readout(times=[1.0, 2.0]), pipeline_seed=s)
+                runs = 1
             elif mode == "observation_seq":
                 obs = Observation(parameters=[ParameterValues(key="pipeline.photon_collection.p.arguments.a", values=[1, 2, 3])], readout=Readout(times=[1.0]), pipeline_seed=s)
                 pyxel.run_mode(mode=obs, detector=det, pipeline=pipe)
@@ -268,6 +276,48 @@ def plumb(mode):
     vx.prove(f"C04/plumb/{mode}", vx.all_of([len(seeds) == runs] + [SymBool(t == s.t) if t is not None else False for t in seeds]), seeds=str(seeds))
     vx.prove(f"C04/plumb/{mode}/restored", _eq(final, rngmodel.STATE0))
     vx.prove(f"C04/plumb/{mode}/draws_independent", len(dr) >= runs and all(not rng.depends_on_initial_state(t) for _, t in dr))
+
+
+def _run_concrete(mode, seed):
+    """The same entry points as plumb(), real generator, concrete seed."""
+    import pyxel
+    from pyxel.exposure import Exposure, Readout
+    from pyxel.observation import Observation, ParameterValues
+    from pyxel.pipelines import Processor
+
+    det, pipe = make_ccd(2, 2), _pipe()
+    key = "pipeline.photon_collection.p.arguments.a"
+    with warnings.catch_warnings():
+        warnings.simplefilter("ignore")
+        if mode == "exposure":
+            pyxel.run_mode(mode=Exposure(readout=Readout(times=[1.0, 2.0]), pipeline_seed=seed), detector=det, pipeline=pipe)
+        elif mode == "exposure_deprecated":
+            from pyxel.exposure.exposure import _run_exposure_pipeline_deprecated
+
+            _run_exposure_pipeline_deprecated(processor=Processor(detector=det, pipeline=pipe), readout=Readout(times=[1.0, 2.0]), pipeline_seed=seed)
+        elif mode == "observation_seq":
+            pyxel.run_mode(mode=Observation(parameters=[ParameterValues(key=key, values=[1, 2, 3])], readout=Readout(times=[1.0]), pipeline_seed=seed), detector=det, pipeline=pipe)
+        elif mode == "observation_dask_fn":
+            from pyxel.observation.observation_dask import _run_pipelines_array_to_datatree
+
+            for v in (1, 2):
+                _run_pipelines_array_to_datatree(params_tuple=(v,), output_filename_suffix=None, dimension_names={key: "a"}, processor=Processor(detector=det, pipeline=pipe),
+                                                 readout=Readout(times=[1.0]), outputs=None, pipeline_seed=seed, progressbar=False)
+        else:
+            from pyxel.calibration.fitting_datatree import ModelFittingDataTree
+
+            prob = ModelFittingDataTree.__new__(ModelFittingDataTree)
+            prob._variables = [ParameterValues(key=key, values="_", boundaries=(0.0, 1.0))]
+            prob.pop, prob.readout, prob.pipeline_seed = 2, Readout(times=[1.0]), seed
+            prob._with_inherited_coords, prob.sim_output, prob.sim_fit_range = True, "pixel", None
+            prob.weighting = prob.weighting_from_file = None
+            prob.fitness_func = lambda simulated, target, weighting: 0.0
+            prob.param_processor_list = [Processor(detector=det, pipeline=pipe)]
+            prob.all_target_data = [np.zeros((2, 2))]
+            if mode == "fitness":
+                prob.fitness(np.array([0.5]))
+            else:
+                prob._apply_parameters(processor=prob.param_processor_list[0], parameter=np.array([0.5]))
 
 
 def _calibration_plumbing(s, p, det, pipe):
@@ -404,17 +454,16 @@ def replay(oid, kwargs, model, data):
                 if not given:
                     return False, {"note": "unseeded: state legitimately advances"}
             else:
-                import pyxel
-                from pyxel.exposure import Exposure, Readout
-
                 vals = []
 
                 def hook(d, tag, kw_, rec, vals=vals):
                     vals.append(float(np.random.random()))
+                    if d.pixel._array is None:
+                        d.pixel.array = np.zeros((2, 2))
 
                 vxprobes.reset(hook)
                 try:
-                    pyxel.run_mode(mode=Exposure(readout=Readout(times=[1.0]), pipeline_seed=seed), detector=make_ccd(2, 2), pipeline=_pipe())
+                    _run_concrete(kwargs["mode"], seed)
                 finally:
                     vxprobes.reset(None)
                 drawn.append(vals)
